@@ -148,8 +148,9 @@ def Genuine (o : ObjCfg) (s : Sym) : Prop :=
     `object_max_cache_size` for any set of its blocks -/
 def Fits (rc : RxCfg) (o : ObjCfg) : Prop :=
   o.ks.size ≤ rc.maxLook ∧
-  ∀ (got : List (Nat × Nat)) (sbn : Nat), got.any (fun x => x.1 == sbn) = false →
-    allocBytes o.blen got + o.blen.getD sbn 0 ≤ rc.maxSize
+  (∀ (got : List (Nat × Nat)) (sbn : Nat), got.any (fun x => x.1 == sbn) = false →
+    allocBytes o.blen got + o.blen.getD sbn 0 ≤ rc.maxSize) ∧
+  rc.pktCap = none
 
 theorem sumOver_empty (l : List Nat) : sumOver #[] l = 0 := by
   induction l with
@@ -157,8 +158,9 @@ theorem sumOver_empty (l : List Nat) : sumOver #[] l = 0 := by
   | cons x xs ih => simp [sumOver, ih]
 
 /-- an object whose blocks the receiver accounts as 0 bytes (or: no per-block accounting) fits any cache -/
-theorem fits_of_noacct (rc : RxCfg) (o : ObjCfg) (h1 : o.ks.size ≤ rc.maxLook) (h2 : o.blen = #[]) : Fits rc o := by
-  refine ⟨h1, ?_⟩
+theorem fits_of_noacct (rc : RxCfg) (o : ObjCfg) (h1 : o.ks.size ≤ rc.maxLook) (h2 : o.blen = #[])
+    (h3 : rc.pktCap = none := by rfl) : Fits rc o := by
+  refine ⟨h1, ?_, h3⟩
   intro got sbn _
   unfold allocBytes
   rw [h2, sumOver_empty]
@@ -250,7 +252,7 @@ theorem pushCore_spec (rc : RxCfg) (o : ObjCfg) (rx : ORx) (s : Sym) (P : List S
             cases hx : rx.got.any (fun x => x.1 == s.sbn) with
             | false => rfl
             | true => exact absurd hx hfr
-          have hal := hfit.2 rx.got s.sbn hfr'
+          have hal := hfit.2.1 rx.got s.sbn hfr'
           have hcond : (decide ((distinctSbns rx.got).length ≥ 2) &&
               decide (allocBytes o.blen rx.got + o.blen.getD s.sbn 0 > rc.maxSize)) = false := by
             have : decide (allocBytes o.blen rx.got + o.blen.getD s.sbn 0 > rc.maxSize) = false := by
@@ -478,7 +480,8 @@ theorem pushObj_good (rc : RxCfg) (o : ObjCfg) (hN : o.ks.isEmpty = false) (hfit
       have ha : (pushCore c.canDecode rc o rx' s).rx.attached = true := by rw [h2.1]; exact h3 h1
       rw [finish_completed o st _ h1 ha]; omega
   · have hk' : rx'.otiKnown = false := by simpa using hk
-    simp only [hk', Bool.not_false, ↓reduceIte]
+    have hcf : cacheFull rc o rx'.cache = false := by simp [cacheFull, hfit.2.2]
+    simp only [hk', Bool.not_false, ↓reduceIte, hcf, Bool.false_eq_true]
     right
     rw [finish_receiving o st _ rfl]
     refine ⟨hnd, ?_⟩
@@ -584,7 +587,7 @@ theorem pushObj_completes_ge (rc : RxCfg) (o : ObjCfg) (st : OState) (rx : ORx) 
   dsimp only
   generalize (if (!rx.otiKnown && o.inbandFti) = true then ({ rx with otiKnown := true } : ORx) else rx) = rx'
   by_cases h : (!rx'.otiKnown) = true
-  · rw [if_pos h]; exact finish_completes_ge o st _
+  · rw [if_pos h]; split <;> exact finish_completes_ge o st _
   · rw [if_neg h]; exact finish_completes_ge o st _
 
 theorem pushNew_completes_ge (rc : RxCfg) (o : ObjCfg) (st : OState) (s : Sym) :
